@@ -610,6 +610,24 @@ func (*Thread).callBytecodePromise
     invariant stackLen == len(generator.stack) && baseStack == sliceptr(generator.stack)
     decreases stackLen - range_idx
 
+// the same for a generator's `next`: what is saved when the body yields (or fails) is the
+// frame as it stands in the CURRENT value stack (the interpreter may have reallocated it while
+// the body ran), without the yielded value on top, in a fresh slice of exactly that length.
+// (That the interpreter returns with at least the yielded value in the frame is not part of
+// this contract: nosafety.)
+func (*Thread).CallGeneratorNext
+  props C15 C10
+  nosafety
+  guard addr < 0 || (sbase(vm) <= addr && addr < sbase(vm) + 24 * len(vm.stack)) || (sliceptr(generator.stack) <= addr && addr < sliceptr(generator.stack) + 24 * len(generator.stack))
+  requires vm != nil && wfStack(vm) && generator != nil && generator.Bytecode != nil && len(generator.stack) >= 1
+  requires room: soff(vm) + len(generator.stack) <= len(vm.stack) - 1
+  assert before restoreLastFrame#1: soff(vm) - 1 >= foff(vm) ==> len(generator.stack) == soff(vm) - 1 - foff(vm) && freshSlice(generator.stack) && (forall k int :: 0 <= k && k < len(generator.stack) ==> elem(generator.stack, k) == slot(vm, foff(vm) + k))
+  assert before restoreLastFrame#2: soff(vm) - 1 >= foff(vm) ==> len(generator.stack) == soff(vm) - 1 - foff(vm) && freshSlice(generator.stack) && generator.ip == vm.ip && (forall k int :: 0 <= k && k < len(generator.stack) ==> elem(generator.stack, k) == slot(vm, foff(vm) + k))
+  loop 1
+    invariant wfStack(vm) && vm.sp == old(vm.sp) && vm.stack == old(vm.stack) && generator.stack == old(generator.stack)
+    invariant stackLen == len(generator.stack) && baseStack == sliceptr(generator.stack)
+    decreases stackLen - range_idx
+
 // ==== hash sets as finite sets (C17) =====================================================
 // Hashing and equality of keys may dispatch to user code; the property presupposes
 // well-behaved keys, so both are modelled as pure functions with the law  a == b ==> hash(a) == hash(b).
